@@ -1,6 +1,7 @@
 package main
 
 import (
+	"encoding/hex"
 	"encoding/json"
 	"fmt"
 	"net/http"
@@ -8,21 +9,49 @@ import (
 	"net/url"
 	"regexp"
 	"strings"
+	"unicode/utf8"
 
 	"github.com/caddyserver/certmagic"
+	"github.com/tmpim/casket"
 	"github.com/tmpim/casket/caskethttp/httpserver"
 	"github.com/tmpim/casket/caskettls"
 )
 
+// c01B is a byte string. In JSON it is a plain string when it is valid UTF-8 and {"hex":"…"}
+// otherwise, so replays reproduce arbitrary bytes (truncated multi-byte sequences, 0xff …).
+type c01B string
+
+func (b c01B) MarshalJSON() ([]byte, error) {
+	if utf8.ValidString(string(b)) {
+		return json.Marshal(string(b))
+	}
+	return json.Marshal(map[string]string{"hex": hex.EncodeToString([]byte(b))})
+}
+func (b *c01B) UnmarshalJSON(raw []byte) error {
+	var s string
+	if err := json.Unmarshal(raw, &s); err == nil {
+		*b = c01B(s)
+		return nil
+	}
+	var m map[string]string
+	if err := json.Unmarshal(raw, &m); err != nil {
+		return err
+	}
+	x, err := hex.DecodeString(m["hex"])
+	*b = c01B(x)
+	return err
+}
+
 type c01Site struct {
-	Key      string `json:"key"` // address as written in the Casketfile
-	Fallback bool   `json:"fallback,omitempty"`
+	Key      c01B `json:"key"` // address as written in the Casketfile
+	Fallback bool `json:"fallback,omitempty"`
 }
 type c01In struct {
-	Sites []c01Site `json:"sites"`
-	Host  string    `json:"host"`
-	Path  string    `json:"path"`
-	Proto int       `json:"proto"`
+	Sites  []c01Site `json:"sites"`
+	Host   c01B      `json:"host"`
+	Path   c01B      `json:"path"`             // URL.Path as the server sees it (decoded bytes)
+	Target c01B      `json:"target,omitempty"` // if set: raw request-target, parsed by url.ParseRequestURI as net/http does
+	Proto  int       `json:"proto"`
 }
 
 var c01Magic *certmagic.Config
@@ -36,146 +65,427 @@ func c01TLS() *caskettls.Config {
 
 var c01Simple = regexp.MustCompile(`^[A-Za-z0-9/._-]*$`)
 
+const c01Trivial = `(CRoute [] [] [] [] 1%N false [] 404%N [] [])`
+
 func c01Run(in0 interface{}) Result {
 	in := in0.(*c01In)
 	var group []*httpserver.SiteConfig
-	calls := 0
-	gotSite := -1
-	gotPath := ""
+	var trace []uint64 // ids of the sites whose marker ran, in order: which site ran and how many handlers ran
+	gotPath, gotPrefix := "", ""
 	var siteTerms, xf []string
 	for i, s := range in.Sites {
-		addr, err := httpserver.VerifStandardizeAddress(s.Key)
+		addr, err := httpserver.VerifStandardizeAddress(string(s.Key))
 		if err != nil {
-			return Result{Term: `(CRoute [] [] [] [] 1%N false None 404%N 0%N [])`, Obs: "address error: " + err.Error(), Class: "addr-error", Sig: "addr-error"}
+			return Result{Term: c01Trivial, Obs: "address error: " + err.Error(), Class: "addr-error", Sig: "addr-error"}
 		}
 		addr = addr.Normalize() // as InspectServerBlocks does
 		cfg := &httpserver.SiteConfig{Addr: addr, TLS: c01TLS(), FallbackSite: s.Fallback}
-		id := i
+		id := uint64(i)
 		cfg.AddMiddleware(func(next httpserver.Handler) httpserver.Handler {
 			return handlerFunc(func(w http.ResponseWriter, r *http.Request) (int, error) {
-				calls++
-				gotSite = id
+				trace = append(trace, id)
 				gotPath = r.URL.Path
+				gotPrefix, _ = r.Context().Value(casket.CtxKey("path_prefix")).(string)
 				w.Header().Set("X-Site", fmt.Sprint(id))
 				w.WriteHeader(200)
 				return 0, nil
 			})
 		})
 		group = append(group, cfg)
-		siteTerms = append(siteTerms, cPair(cStr(addr.VHost()), cN(uint64(i))))
+		siteTerms = append(siteTerms, cPair(cStr(addr.VHost()), cN(id)))
 		if s.Fallback {
 			xf = append(xf, addr.Host)
 		}
 	}
 	srv, err := httpserver.NewServer("127.0.0.1:0", group)
 	if err != nil {
-		return Result{Term: `(CRoute [] [] [] [] 1%N false None 404%N 0%N [])`, Obs: "NewServer: " + err.Error(), Class: "newserver-error", Sig: "newserver-error", Direct: "NewServer failed: " + err.Error()}
+		return Result{Term: c01Trivial, Obs: "NewServer: " + err.Error(), Class: "newserver-error", Sig: "newserver-error", Direct: "NewServer failed: " + err.Error()}
 	}
 	req := httptest.NewRequest("GET", "http://placeholder.invalid/", nil)
-	req.Host = in.Host
-	req.URL = &url.URL{Path: in.Path}
-	req.RequestURI = in.Path
+	req.Host = string(in.Host)
+	up := string(in.Path)
+	if in.Target != "" {
+		u, err := url.ParseRequestURI(string(in.Target))
+		if err != nil {
+			return Result{Term: c01Trivial, Obs: "request-target rejected by net/url: " + err.Error(), Class: "bad-target", Sig: "bad-target"}
+		}
+		req.URL = u
+		req.RequestURI = string(in.Target)
+		up = u.Path
+	} else {
+		req.URL = &url.URL{Path: up}
+		req.RequestURI = up
+	}
 	req.ProtoMajor = in.Proto
 	rec := httptest.NewRecorder()
 	srv.ServeHTTP(rec, req)
-	obsSite := "None"
-	if calls > 0 {
-		obsSite = fmt.Sprintf("(Some %d%%N)", gotSite)
-	}
-	simple := c01Simple.MatchString(in.Path)
-	term := cApp("CRoute", cList(siteTerms), cStrList(xf), cStr(in.Host), cStr(in.Path), cN(uint64(in.Proto)), cBool(simple),
-		obsSite, cN(uint64(rec.Code)), cN(uint64(calls)), cStr(gotPath))
+	simple := c01Simple.MatchString(up) && in.Target == ""
+	term := cApp("CRoute", cList(siteTerms), cStrList(xf), cStr(string(in.Host)), cStr(up), cN(uint64(in.Proto)), cBool(simple),
+		cNList(trace), cN(uint64(rec.Code)), cStr(gotPrefix), cStr(gotPath))
 	sig := "route"
-	if strings.Contains(in.Host, "[") || func() bool {
-		for _, s := range in.Sites {
-			if strings.Contains(s.Key, "[") {
-				return true
-			}
+	brack := strings.Contains(string(in.Host), "[")
+	multi := !c01ASCII(up)
+	wild, nested := 0, false
+	hostsSeen := map[string]int{}
+	for _, s := range in.Sites {
+		k := string(s.Key)
+		if strings.Contains(k, "[") {
+			brack = true
 		}
-		return false
-	}() {
+		if strings.Contains(k, "*") {
+			wild++
+		}
+		if !c01ASCII(k) {
+			multi = true
+		}
+		h := strings.ToLower(strings.SplitN(strings.TrimPrefix(k, "http://"), "/", 2)[0])
+		hostsSeen[h]++
+		if hostsSeen[h] > 1 {
+			nested = true
+		}
+	}
+	if brack {
 		sig = "route:bracketed-ipv6"
 	}
-	return Result{Term: term, Obs: map[string]interface{}{"site": gotSite, "status": rec.Code, "calls": calls, "path": gotPath},
-		Sig: sig, Nontrivial: len(in.Sites) >= 2, Class: fmt.Sprintf("%s:sites%d:hit=%v", sig, len(in.Sites), calls > 0)}
+	feat := ""
+	if wild >= 2 {
+		feat += "+wild"
+	}
+	if nested {
+		feat += "+nested"
+	}
+	if multi {
+		feat += "+nonascii"
+	}
+	if in.Target != "" {
+		feat += "+target"
+	}
+	return Result{Term: term, Obs: map[string]interface{}{"trace": trace, "status": rec.Code, "prefix": gotPrefix, "path": gotPath},
+		Sig: sig, Nontrivial: len(in.Sites) >= 2, Class: fmt.Sprintf("%s%s:hit=%v", sig, feat, len(trace) > 0)}
+}
+
+func c01ASCII(s string) bool {
+	for i := 0; i < len(s); i++ {
+		if s[i] >= 0x80 {
+			return false
+		}
+	}
+	return true
+}
+
+// ---- generator ----
+
+func c01MixCase(r *Rand, s string) string {
+	b := []byte(s)
+	for i, c := range b {
+		if c >= 'a' && c <= 'z' && r.Chance(40) {
+			b[i] = c - 32
+		} else if c >= 'A' && c <= 'Z' && r.Chance(40) {
+			b[i] = c + 32
+		}
+	}
+	return string(b)
+}
+
+// the host part of a site key (scheme, port and path removed), brackets kept
+func c01KeyHost(key string) string {
+	s := strings.TrimPrefix(key, "http://")
+	if j := strings.Index(s, "/"); j >= 0 {
+		s = s[:j]
+	}
+	if strings.HasPrefix(s, "[") {
+		if j := strings.Index(s, "]"); j >= 0 {
+			return s[:j+1]
+		}
+		return s
+	}
+	if j := strings.LastIndex(s, ":"); j >= 0 && !strings.Contains(s[:j], ":") {
+		s = s[:j]
+	}
+	return s
+}
+func c01KeyPath(key string) string {
+	s := strings.TrimPrefix(key, "http://")
+	if j := strings.Index(s, "/"); j >= 0 {
+		return s[j:]
+	}
+	return "/"
+}
+
+var c01SitePaths = []string{"", "", "/", "/a", "/a/b", "/ab", "/a/", "/A", "/a/b/c", "/x.y",
+	"/caf", "/caf\xc3", "/caf\xc3\xa9", "/caf\xc3\xa9/menu", "/\xe3\x83\x89", "/\xe3\x83\x89\xe3\x82\xad", "/\xe3\x83",
+	"/a%20b", "/a%2Fb", "/%C3%A9", "/a+b", "/\xf0\x9f\x98\x80", "/\xf0\x9f\x98", "/\xc3\x83\xc2\xa9"}
+
+var c01PathTails = []string{"", "", "/", "x", "/x", "\xa9", "\xc3\xa9", "\xc3", "\xe3\x82\xad", "\x83\x89", "%20", "%2F", "/../b", "//", "\xff", "\xc2\x80", "b/c/d", "\x80", "?", "é/ü"}
+
+func c01ReqPath(r *Rand, sites []c01Site) string {
+	base := "/"
+	if len(sites) > 0 && r.Chance(75) {
+		base = c01KeyPath(string(sites[r.Intn(len(sites))].Key))
+	} else {
+		base = r.Pick(c01SitePaths)
+		if base == "" {
+			base = "/"
+		}
+	}
+	switch r.Intn(10) {
+	case 0: // a proper prefix, possibly cutting a multi-byte sequence
+		if len(base) > 1 {
+			base = base[:r.Range(1, len(base)-1)]
+		}
+	case 1: // one byte changed
+		b := []byte(base)
+		if len(b) > 1 {
+			i := r.Range(1, len(b)-1)
+			b[i] ^= byte(1 << uint(r.Intn(8)))
+			base = string(b)
+		}
+	case 2: // other letter case
+		base = c01MixCase(r, base)
+	case 3: // a stray byte (often >= 0x80) inside a declared prefix, then the rest of it
+		if len(base) > 1 {
+			i := r.Range(1, len(base)-1)
+			base = base[:i] + r.Pick([]string{"\xc3", "\xa9", "\xe3\x83", "\xff", "%", "/", "\x80"}) + base[i:] + r.Pick(c01PathTails)
+		}
+	default:
+		base += r.Pick(c01PathTails)
+		if r.Chance(20) {
+			base += r.Pick(c01PathTails)
+		}
+	}
+	return base
+}
+
+func c01ReqHost(r *Rand, sites []c01Site, foreign []string) string {
+	host := r.Pick(foreign)
+	if len(sites) > 0 && r.Chance(65) { // aim at a declared host
+		host = c01KeyHost(string(sites[r.Intn(len(sites))].Key))
+		for strings.Contains(host, "*") {
+			host = strings.Replace(host, "*", r.Pick([]string{"w", "W", "q-1", "*", "xn--caf-dma"}), 1)
+		}
+		if r.Chance(15) { // one label more / one label less
+			if r.Bool() {
+				host = "sub." + host
+			} else if j := strings.Index(host, "."); j >= 0 {
+				host = host[j+1:]
+			}
+		}
+	}
+	if r.Chance(45) {
+		host = c01MixCase(r, host)
+	}
+	return host + r.Pick([]string{"", "", "", ":80", ":8080", ":2015", ":", ":443", ":http"})
+}
+
+func c01Perms(n int) [][]int {
+	if n == 0 {
+		return [][]int{{}}
+	}
+	var out [][]int
+	for _, p := range c01Perms(n - 1) {
+		for i := 0; i <= len(p); i++ {
+			q := append(append(append([]int{}, p[:i]...), n-1), p[i:]...)
+			out = append(out, q)
+		}
+	}
+	return out
 }
 
 func c01Gen(r *Rand, tier string) []interface{} {
 	var out []interface{}
 	hosts := []string{"a.com", "b.a.com", "c.b.a.com", "*.a.com", "*.*.com", "*.b.a.com", "*", "", "0.0.0.0", "[::]", "127.0.0.1",
-		"localhost", "A.com", "x.org", "*.org", "*.*.*.com", "[::1]", "[2001:DB8::1]", "b.A.com", "a.com.", "*.*"}
-	ports := []string{"", "", "", ":8080", ":2015"}
-	paths := []string{"", "", "/", "/a", "/a/b", "/ab", "/a/", "/A", "/café", "/ド", "/a/b/c", "/x.y"}
-	reqHosts := []string{"a.com", "A.COM", "b.a.com", "B.a.Com", "c.b.a.com", "d.c.b.a.com", "z.com", "x.org", "y.x.org", "", "localhost",
-		"127.0.0.1", "0.0.0.0", "[::1]", "[::]", "zzz", "a.com.", "q.z.com", "*.a.com", "com", "b.a.org"}
-	reqPorts := []string{"", "", ":80", ":8080", ":2015", ":"}
-	reqPaths := []string{"/", "/a", "/a/b", "/ab", "/abc", "/a/b/c/d", "/A", "/café", "/café/menu", "/cafÃ©", "/ドキ", "/b", "/a/", "/x.y/z", "/a%20b", "//a", "/a/../b"}
-	n := 2500
+		"localhost", "A.com", "x.org", "*.org", "*.*.*.com", "[::1]", "[2001:DB8::1]", "b.A.com", "a.com.", "*.*", "*.*.a.com", "*.*.*.*",
+		"B.a.CoM", "[fe80::1]", "*.localhost", "xn--caf-dma.com", "caf\xc3\xa9.com", "*.caf\xc3\xa9.com", "CAF\xc3\xa9.com"}
+	ports := []string{"", "", "", ":8080", ":2015", ":80"}
+	foreign := []string{"a.com", "A.COM", "b.a.com", "B.a.Com", "c.b.a.com", "d.c.b.a.com", "z.com", "x.org", "y.x.org", "", "localhost",
+		"127.0.0.1", "0.0.0.0", "[::1]", "[::]", "zzz", "a.com.", "q.z.com", "*.a.com", "com", "b.a.org", "[2001:db8::1]", "[2001:DB8::1]", "::1", "[fe80::1]", "a.b.c.d", "caf\xc3\xa9.com", "Caf\xc3\xa9.COM:80", "w.caf\xc3\xa9.com"}
+	scale := 1
 	if tier == "thorough" {
-		n = 40000
+		scale = 10
 	}
-	for i := 0; i < n; i++ {
+	protoOf := func() int {
+		switch r.Intn(20) {
+		case 0, 1, 2:
+			return 2
+		case 3:
+			return 3
+		case 4:
+			return 0
+		}
+		return 1
+	}
+	emit := func(sites []c01Site, host, path string, proto int) {
+		in := &c01In{Sites: sites, Host: c01B(host), Path: c01B(path), Proto: proto}
+		out = append(out, in)
+	}
+	permuted := func(sites []c01Site, perm []int) []c01Site {
+		ps := make([]c01Site, len(sites))
+		for a, b := range perm {
+			ps[a] = sites[b]
+		}
+		return ps
+	}
+
+	// (A) mixed site sets, 1-5 addresses; distinct normalised keys mostly, sometimes a repeated address
+	for i := 0; i < 1700*scale; i++ {
 		ns := r.Range(1, 5)
 		var sites []c01Site
 		seen := map[string]bool{}
-		for len(sites) < ns {
+		for tries := 0; len(sites) < ns && tries < 20; tries++ {
 			h := r.Pick(hosts)
-			p := r.Pick(paths)
+			p := r.Pick(c01SitePaths)
 			key := h + r.Pick(ports) + p
 			if h == "" && p == "" {
 				key = ":2015"
 			}
-			nk := strings.ToLower(strings.Trim(h, "[]")) + "|" + p
-			if p == "" {
-				nk = strings.ToLower(strings.Trim(h, "[]")) + "|/"
+			pp := p
+			if pp == "" {
+				pp = "/"
 			}
-			if seen[nk] {
-				ns--
+			nk := strings.ToLower(strings.Trim(h, "[]")) + "|" + pp
+			if seen[nk] && !r.Chance(8) {
 				continue
 			}
 			seen[nk] = true
-			if r.Chance(15) {
+			if r.Chance(12) {
 				key = "http://" + key
 			}
-			sites = append(sites, c01Site{Key: key, Fallback: r.Chance(10) && h != ""})
+			sites = append(sites, c01Site{Key: c01B(key), Fallback: r.Chance(10) && h != ""})
 		}
 		if len(sites) == 0 {
 			continue
 		}
-		host := r.Pick(reqHosts)
-		if r.Chance(50) { // aim at a declared host
-			s := sites[r.Intn(len(sites))].Key
-			s = strings.TrimPrefix(s, "http://")
-			if j := strings.Index(s, "/"); j >= 0 {
-				s = s[:j]
+		host, path, proto := c01ReqHost(r, sites, foreign), c01ReqPath(r, sites), protoOf()
+		emit(sites, host, path, proto)
+		if r.Chance(35) && len(sites) > 1 {
+			emit(permuted(sites, r.Perm(len(sites))), host, path, proto)
+		}
+	}
+
+	// (B) wildcard patterns of different depths for one name, declared in EVERY order
+	chains := [][]string{
+		{"c.b.a.com", "*.b.a.com", "*.*.a.com", "*.*.*.com", "*.*.*.*"},
+		{"b.a.com", "*.a.com", "*.*.com", "*.*.*", "*"},
+		{"x.org", "*.org", "*.*", "", "0.0.0.0"},
+		{"localhost", "*", "*.localhost", "[::]", ""},
+	}
+	for i := 0; i < 24*scale; i++ {
+		ch := chains[r.Intn(len(chains))]
+		k := r.Range(2, 4)
+		idx := r.Perm(len(ch))[:k]
+		var sites []c01Site
+		for _, j := range idx {
+			h := ch[j]
+			key := c01MixCase(r, h) + r.Pick(ports) + r.Pick([]string{"", "", "/a", "/caf\xc3\xa9"})
+			if key == "" {
+				key = ":2015"
 			}
-			if !strings.HasPrefix(s, "[") {
-				if j := strings.LastIndex(s, ":"); j >= 0 && !strings.Contains(s[:j], ":") {
-					s = s[:j]
-				}
-			} else if j := strings.Index(s, "]"); j >= 0 {
-				s = s[:j+1]
+			sites = append(sites, c01Site{Key: c01B(key)})
+		}
+		target := ch[0]
+		if r.Chance(30) {
+			target = r.Pick([]string{"z." + target, "q.w.e.r", "zzz", "a.b.c"})
+		}
+		host := c01MixCase(r, target) + r.Pick([]string{"", ":80", ":2015"})
+		path, proto := c01ReqPath(r, sites), protoOf()
+		for _, perm := range c01Perms(k) {
+			emit(permuted(sites, perm), host, path, proto)
+		}
+	}
+
+	// (C) several sites sharing one host with nested path prefixes (multi-byte, percent text), plus a decoy host
+	nestFamilies := [][]string{
+		{"/", "/a", "/a/b", "/a/b/c", "/ab", "/a/"},
+		{"/caf", "/caf\xc3", "/caf\xc3\xa9", "/caf\xc3\xa9/menu", "/", "/caf\xc3\xa9/m"},
+		{"/\xe3\x83\x89", "/\xe3\x83\x89\xe3\x82\xad", "/\xe3\x83", "/\xe3", "/\xe3\x83\x89/\xe3\x82\xad"},
+		{"/a%20b", "/a%20", "/a%2F", "/a", "/a%20b/c", "/a b"},
+		{"/\xf0\x9f\x98\x80", "/\xf0\x9f\x98", "/\xf0\x9f", "/\xf0", "/\xf0\x9f\x98\x80/x"},
+	}
+	for i := 0; i < 700*scale; i++ {
+		fam := nestFamilies[r.Intn(len(nestFamilies))]
+		h := r.Pick([]string{"a.com", "*.a.com", "", "[::1]", "B.a.com", "*"})
+		k := r.Range(2, 5)
+		if k > len(fam) {
+			k = len(fam)
+		}
+		idx := r.Perm(len(fam))[:k]
+		var sites []c01Site
+		for _, j := range idx {
+			key := h + r.Pick(ports) + fam[j]
+			if h == "" && !strings.Contains(key, ":") {
+				key = ":2015" + fam[j]
 			}
-			host = strings.Replace(s, "*", r.Pick([]string{"w", "W.v", "q"}), 1)
-			if r.Chance(30) {
-				host = strings.ToUpper(host)
+			sites = append(sites, c01Site{Key: c01B(key)})
+		}
+		if r.Chance(50) { // another host owning a longer / the root prefix: must never be consulted once h matched
+			other := r.Pick([]string{"", "*", "*.com", "0.0.0.0", "z.com"})
+			key := other + r.Pick([]string{":2015", ":80"}) + r.Pick([]string{"/", strings.TrimSuffix(fam[r.Intn(len(fam))], "/") + "/deeper"})
+			pos := r.Intn(len(sites) + 1)
+			sites = append(sites[:pos], append([]c01Site{{Key: c01B(key), Fallback: r.Chance(20) && other != ""}}, sites[pos:]...)...)
+		}
+		host, path, proto := c01ReqHost(r, sites, foreign), c01ReqPath(r, sites), protoOf()
+		emit(sites, host, path, proto)
+		if r.Chance(50) {
+			emit(permuted(sites, r.Perm(len(sites))), host, path, proto)
+		}
+	}
+
+	// (D) IPv6 literals with and without brackets/ports on both sides (repaired defect 74e3e5b)
+	v6 := []string{"[::1]", "[::1]:2015", "[::]", "[::]:80", "[2001:DB8::1]", "[2001:db8::1]:8080", "[fe80::1]:2015", "[::ffff:1.2.3.4]"}
+	v6req := []string{"[::1]", "[::1]:80", "[::1]:", "::1", "[::]", "[::]:2015", "[2001:db8::1]", "[2001:DB8::1]:9", "[2001:Db8::1]", "[fe80::1]", "[::2]", "[::ffff:1.2.3.4]:1", "[::1", "::1]"}
+	for i := 0; i < 300*scale; i++ {
+		k := r.Range(1, 3)
+		var sites []c01Site
+		for j := 0; j < k; j++ {
+			sites = append(sites, c01Site{Key: c01B(r.Pick(v6) + r.Pick([]string{"", "", "/a", "/a/b"})), Fallback: r.Chance(10)})
+		}
+		if r.Chance(30) {
+			sites = append(sites, c01Site{Key: c01B(r.Pick(hosts) + r.Pick(ports))})
+		}
+		if string(sites[len(sites)-1].Key) == "" {
+			sites[len(sites)-1].Key = ":2015"
+		}
+		emit(sites, r.Pick(v6req), c01ReqPath(r, sites), protoOf())
+	}
+
+	// (F) default catch-all hosts next to designated fallback sites: the built-in fallback hosts are tried first,
+	// then the designated ones in declaration order; a matched host without a path prefix ends the search
+	for i := 0; i < 260*scale; i++ {
+		var sites []c01Site
+		if r.Chance(60) {
+			sites = append(sites, c01Site{Key: c01B(r.Pick([]string{":2015", "0.0.0.0:2015", "[::]:2015", "*:2015", "0.0.0.0", "*.*.*.*"}) + r.Pick([]string{"", "", "/a", "/caf\xc3\xa9"}))})
+		}
+		for _, j := range r.Perm(4)[:r.Range(1, 3)] {
+			h := []string{"fb1.example", "FB2.example", "*.fb3.example", "[::1]"}[j]
+			sites = append(sites, c01Site{Key: c01B(h + r.Pick(ports) + r.Pick([]string{"", "", "/a", "/a/b"})), Fallback: r.Chance(85)})
+		}
+		if r.Chance(40) {
+			sites = append(sites, c01Site{Key: c01B(r.Pick(hosts) + r.Pick(ports))})
+			if string(sites[len(sites)-1].Key) == "" {
+				sites[len(sites)-1].Key = ":2015"
 			}
 		}
-		host += r.Pick(reqPorts)
-		in := &c01In{Sites: sites, Host: host, Path: r.Pick(reqPaths), Proto: 1}
-		if r.Chance(15) {
-			in.Proto = 2
+		sites = permuted(sites, r.Perm(len(sites)))
+		host := r.Pick([]string{"nosuch.example", "zzz", "", "x.fb3.example", "1.2.3.4", "[::2]", "fb2.EXAMPLE:80"})
+		emit(sites, host, r.Pick([]string{"/", "/a", "/a/b/c", "/b", "/caf\xc3\xa9/x"}), protoOf())
+	}
+
+	// (E) raw request-targets parsed as net/http does: percent-encoded bytes decode into URL.Path before the lookup
+	targets := []string{"/caf%C3%A9", "/caf%c3%a9/menu", "/caf%C3", "/a%20b", "/a%2Fb", "/a%252Fb", "/%E3%83%89", "/a/b?x=/a/b/c", "/a%2520b", "/caf\xc3\xa9",
+		"http://other.example/a/b", "/a/b#frag", "/%41", "/a%ZZ", "//a", "/a/./b", "/%2e%2e/a"}
+	for i := 0; i < 350*scale; i++ {
+		fam := nestFamilies[r.Intn(len(nestFamilies))]
+		h := r.Pick([]string{"a.com", "*.com", ""})
+		var sites []c01Site
+		for _, j := range r.Perm(len(fam))[:r.Range(1, 3)] {
+			key := h + fam[j]
+			if h == "" {
+				key = ":2015" + fam[j]
+			}
+			sites = append(sites, c01Site{Key: c01B(key)})
 		}
+		in := &c01In{Sites: sites, Host: c01B(c01ReqHost(r, sites, foreign)), Target: c01B(r.Pick(targets)), Proto: protoOf()}
 		out = append(out, in)
-		// the same set in another declaration order must route identically (the model is proved order-independent)
-		if r.Chance(40) && len(sites) > 1 {
-			perm := r.Perm(len(sites))
-			ps := make([]c01Site, len(sites))
-			for a, b := range perm {
-				ps[a] = sites[b]
-			}
-			out = append(out, &c01In{Sites: ps, Host: in.Host, Path: in.Path, Proto: in.Proto})
-		}
 	}
 	return out
 }
@@ -183,9 +493,10 @@ func c01Gen(r *Rand, tier string) []interface{} {
 func init() {
 	register(&Property{
 		ID: "C01", Imports: "V.Lib V.GoPath V.GoNet V.C01_Model", Judge: "judge",
-		Rule: "site sets (1-5 addresses over exact/wildcard/catch-all/IP hosts x ports x nested path prefixes incl. multi-byte, optional fallback flag, re-run in permuted declaration order) through httpserver.NewServer + Server.ServeHTTP with a marker middleware per site; requests aim at declared hosts with case/port variations or at foreign hosts; non-trivial = at least two sites; distinct = distinct case term",
+		Rule:   "httpserver.NewServer + Server.ServeHTTP with a marker middleware per site that records the ordered list of sites whose handlers ran, the path_prefix context value and the trimmed path; streams: (A) mixed sets of 1-5 addresses over exact/wildcard/catch-all/IPv4/IPv6/punycode hosts x ports x mixed case x path prefixes (multi-byte UTF-8, truncated sequences, percent text), optional fallback flag, occasional repeated address, re-run permuted; (B) wildcard patterns of every depth for one name declared in EVERY order; (C) 2-5 sites sharing a host with nested byte-wise path prefixes plus a decoy host owning a longer prefix; (D) IPv6 literals with/without brackets and ports on both sides; (E) raw request-targets decoded by url.ParseRequestURI; (F) built-in catch-all hosts next to designated fallback sites in every mix. Requests aim at declared hosts (wildcards instantiated, one label more/less, random letter case, ports) or foreign hosts; paths are declared prefixes extended/truncated/bit-flipped with arbitrary bytes; protocol major 0-3. non-trivial = at least two sites; distinct = distinct case term",
 		Gen:    c01Gen,
 		Decode: func(raw json.RawMessage) (interface{}, error) { in := &c01In{}; return in, json.Unmarshal(raw, in) },
 		Run:    c01Run,
+		Shard:  250,
 	})
 }
